@@ -433,3 +433,163 @@ Qed.
 
 End Selection.
 End RealsE.
+
+(* ------------------------------------------------------------------ *)
+(* neff and log-sum-exp *)
+Lemma sumR_le_mem w x : (forall y, In y w -> 0 <= y) -> In x w -> x <= sumR w.
+Proof.
+  induction w as [|a w IH]; intros Hn Hin; [destruct Hin|]. simpl.
+  assert (0 <= a) by (apply Hn; left; auto).
+  assert (0 <= sumR w).
+  { clear -Hn. induction w; simpl; [lra|]. assert (0 <= a0) by (apply Hn; right; left; auto).
+    assert (0 <= sumR w) by (apply IHw; intros y Hy; apply Hn; destruct Hy; [left|right; right]; auto). lra. }
+  destruct Hin as [->|Hin]; [lra|]. assert (x <= sumR w) by (apply IH; auto; intros; apply Hn; right; auto). lra.
+Qed.
+
+Lemma sumsq_le_sum w : (forall y, In y w -> 0 <= y <= 1) -> sumR (map (fun x => x * x) w) <= sumR w.
+Proof.
+  induction w as [|a w IH]; intro H; simpl; [lra|].
+  assert (0 <= a <= 1) by (apply H; left; auto).
+  assert (sumR (map (fun x => x * x) w) <= sumR w) by (apply IH; intros; apply H; right; auto). nra.
+Qed.
+
+Lemma sum_centered_sq w m :
+  sumR (map (fun x => (x - m) * (x - m)) w)
+  = sumR (map (fun x => x * x) w) - 2 * m * sumR w + INR (length w) * m * m.
+Proof.
+  induction w as [|a w IH]; [simpl; lra|].
+  change (length (a :: w)) with (Datatypes.S (length w)). rewrite S_INR. simpl map. simpl sumR. rewrite IH. ring.
+Qed.
+
+Lemma sumR_nonneg w : (forall y, In y w -> 0 <= y) -> 0 <= sumR w.
+Proof.
+  induction w; intro H; simpl; [lra|]. assert (0 <= a) by (apply H; left; auto).
+  assert (0 <= sumR w) by (apply IHw; intros; apply H; right; auto). lra.
+Qed.
+
+(* Cauchy-Schwarz with the constant vector, for sum 1 *)
+Lemma sumsq_ge_inv w : w <> [] -> sumR w = 1 -> / INR (length w) <= sumR (map (fun x => x * x) w).
+Proof.
+  intros Hne Hs. assert (HN : 0 < INR (length w)).
+  { apply lt_0_INR. destruct w; [congruence | simpl; lia]. }
+  pose proof (sum_centered_sq w (/ INR (length w))) as E.
+  assert (0 <= sumR (map (fun x => (x - / INR (length w)) * (x - / INR (length w))) w)).
+  { apply sumR_nonneg. intros y Hy. apply in_map_iff in Hy. destruct Hy as [x [<- _]]. apply (Rle_0_sqr (x - / INR (length w))). }
+  rewrite Hs in E.
+  replace (INR (length w) * / INR (length w) * / INR (length w)) with (/ INR (length w)) in E by (field; lra).
+  lra.
+Qed.
+
+Section Neff.
+Variable e : R -> R.
+Hypothesis e_nonneg : forall x, 0 <= e x.
+Notation SE := (ROpsE e).
+
+Lemma neff_formula (lw : list R) : neff SE lw = 1 / sumR (map (fun x => e x * e x) lw).
+Proof.
+  unfold neff, ssum. change (s0 SE) with 0. change (s1 SE) with 1. change (sadd SE) with Rplus.
+  rewrite fold_left_Rplus, Rplus_0_l. reflexivity.
+Qed.
+
+Lemma neff_range (lw : list R) : lw <> [] -> sumR (map e lw) = 1 ->
+  1 <= neff SE lw <= INR (length lw).
+Proof.
+  intros Hne Hs. rewrite neff_formula.
+  replace (map (fun x => e x * e x) lw) with (map (fun x => x * x) (map e lw)) by (rewrite map_map; reflexivity).
+  set (w := map e lw) in *.
+  assert (Hn : forall y, In y w -> 0 <= y).
+  { intros y Hy. apply in_map_iff in Hy. destruct Hy as [x [<- _]]. apply e_nonneg. }
+  assert (Hw : w <> []) by (unfold w; destruct lw; simpl; congruence).
+  pose proof (sumsq_ge_inv w Hw Hs) as H1. rewrite (map_length e lw : length w = length lw) in H1.
+  assert (H2 : sumR (map (fun x => x * x) w) <= 1).
+  { rewrite <- Hs. apply sumsq_le_sum. intros y Hy. split; [auto|]. rewrite <- Hs. apply sumR_le_mem; auto. }
+  assert (HN : 0 < INR (length lw)) by (apply lt_0_INR; destruct lw; [congruence | simpl; lia]).
+  set (Q := sumR (map (fun x => x * x) w)) in *.
+  assert (0 < / INR (length lw)) by (apply Rinv_0_lt_compat; auto).
+  assert (HQ : 0 < Q) by lra.
+  assert (E : Q * / Q = 1) by (field; lra). assert (0 < / Q) by (apply Rinv_0_lt_compat; auto).
+  assert (E2 : INR (length lw) * / INR (length lw) = 1) by (field; lra).
+  unfold Rdiv. rewrite Rmult_1_l. split; nra.
+Qed.
+End Neff.
+
+Lemma sumR_scal c l : sumR (map (fun a => c * a) l) = c * sumR l.
+Proof. induction l; simpl; [ring | rewrite IHl; ring]. Qed.
+Lemma sumR_pos l : l <> [] -> (forall a, In a l -> 0 < a) -> 0 < sumR l.
+Proof.
+  induction l as [|a l IH]; [congruence|]; intros _ H; simpl.
+  destruct l. simpl. rewrite Rplus_0_r. apply H; left; auto.
+  assert (0 < a) by (apply H; left; auto).
+  assert (0 < sumR (r :: l)) by (apply IH; [congruence | intros; apply H; right; auto]). lra.
+Qed.
+Lemma sum_exp_pos l : l <> [] -> 0 < sumR (map exp l).
+Proof.
+  intro H. apply sumR_pos; [destruct l; simpl; congruence|].
+  intros a Ha. apply in_map_iff in Ha. destruct Ha as [b [<- _]]. apply exp_pos.
+Qed.
+
+(* utils::log_sum_exp computes ln (sum exp), whatever pivot the max search returns *)
+Theorem lse_spec (l : list R) : l <> [] -> lse ROps l = ln (sumR (map exp l)).
+Proof.
+  destruct l as [|x0 r]; [congruence|]. intros _. unfold lse.
+  set (mx := smaxl ROps x0 r). set (xs := x0 :: r).
+  unfold ssum. change (s0 ROps) with 0. change (sadd ROps) with Rplus. change (sln ROps) with ln.
+  rewrite fold_left_Rplus, Rplus_0_l.
+  change (map (fun a : T ROps => sexp ROps (ssub ROps a mx)) xs) with (map (fun a => exp (a - mx)) xs).
+  assert (E : map exp xs = map (fun a => exp mx * a) (map (fun a => exp (a - mx)) xs)).
+  { rewrite map_map. apply map_ext; intro a. rewrite <- exp_plus. f_equal; ring. }
+  rewrite E, sumR_scal, ln_mult, ln_exp; [reflexivity | apply exp_pos |].
+  apply sumR_pos. unfold xs; simpl; congruence.
+  intros a Ha. apply in_map_iff in Ha. destruct Ha as [b [<- _]]. apply exp_pos.
+Qed.
+
+Lemma lse_normalise_sum (l : list R) : l <> [] -> sumR (map exp (lse_normalise ROps l)) = 1.
+Proof.
+  intro H. unfold lse_normalise. rewrite lse_spec by auto. rewrite map_map.
+  change (fun x : T ROps => exp (ssub ROps x (ln (sumR (map exp l))))) with (fun x => exp (x - ln (sumR (map exp l)))).
+  pose proof (sum_exp_pos l H) as Hp.
+  rewrite (map_ext _ (fun x => / sumR (map exp l) * exp x)).
+  - rewrite <- (map_map exp (fun y => / sumR (map exp l) * y)), sumR_scal. field. lra.
+  - intro a. unfold Rminus. rewrite exp_plus, exp_Ropp, exp_ln by auto. ring.
+Qed.
+
+Lemma lse_normalise_length (S : SOps) l : length (lse_normalise S l) = length l.
+Proof. unfold lse_normalise. apply map_length. Qed.
+
+Lemma lse_normalised_zero (l : list R) : l <> [] -> lse ROps (lse_normalise ROps l) = 0.
+Proof.
+  intro H. rewrite lse_spec, lse_normalise_sum, ln_1; auto.
+  destruct l; [congruence|]. unfold lse_normalise. simpl. congruence.
+Qed.
+
+(* ------------------------------------------------------------------ *)
+(* the u1 = 0 boundary: the draw range is [0, 1/N) but the comparison u_j > csw pairs with (a, b] *)
+Lemma advance_stop_now (S : SOps) f c N u idx :
+  keep_going S c N u idx = false -> advance S (Datatypes.S f) c N u idx = idx.
+Proof. intro H. simpl. rewrite H. reflexivity. Qed.
+
+Lemma u1_zero_boundary :
+  exists (lw : list R) (u1 : R),
+    length lw = 2%nat /\ sumR (map exp lw) = 1 /\ u1 = 0 /\ u1 * INR (length lw) < 1 /\
+    res_parents ROps lw u1 = [0; 0]%nat /\
+    ~ Rabs (INR (count_occ Nat.eq_dec (res_parents ROps lw u1) 0%nat) - INR (length lw) * exp (nth 0 lw 0)) < 1.
+Proof.
+  exists [ln (/ 2); ln (/ 2)], 0.
+  assert (E : exp (ln (/ 2)) = / 2) by (apply exp_ln; lra).
+  assert (P : res_parents ROps [ln (/ 2); ln (/ 2)] 0 = [0; 0]%nat).
+  { unfold res_parents. change (length [ln (/ 2); ln (/ 2)]) with 2%nat.
+    change (csw ROps [ln (/ 2); ln (/ 2)]) with [exp (ln (/ 2)); exp (ln (/ 2)) + exp (ln (/ 2))].
+    rewrite E.
+    change (res_loop ROps [/ 2; / 2 + / 2] 2 0 2 0 0)
+      with (let i0 := advance ROps 2 [/ 2; / 2 + / 2] 2 (comb ROps 2 0 0) 0 in
+            i0 :: (let i1 := advance ROps 2 [/ 2; / 2 + / 2] 2 (comb ROps 2 0 1) i0 in [i1])).
+    rewrite (advance_stop_now ROps 1 _ 2 (comb ROps 2 0 0) 0).
+    - cbv zeta. rewrite (advance_stop_now ROps 1 _ 2 (comb ROps 2 0 1) 0); [reflexivity|].
+      unfold keep_going. rewrite (sltb_SE exp), (comb_R exp). apply andb_false_iff. left.
+      apply Rltb_false. simpl. lra.
+    - unfold keep_going. rewrite (sltb_SE exp), (comb_R exp). apply andb_false_iff. left.
+      apply Rltb_false. simpl. lra. }
+  repeat split; try (simpl; rewrite ?E; lra).
+  - exact P.
+  - rewrite P. simpl. rewrite E. replace (1 + 1 - (1 + 1) * / 2) with 1 by lra. rewrite Rabs_R1. lra.
+Qed.
